@@ -36,6 +36,7 @@ class Grammar:
         self.turn_player = None
         self.ball_no = {}          # player -> balls played (turns taken)
         self.end_requested = False
+        self.slam_requested = False
         self.ball_end_reason = False
         self.extra_pending = {}    # player -> awarded, not yet played
         self.in_ball = False
@@ -61,6 +62,7 @@ class Grammar:
         self.ball_no = {}
         self.turn_order = []
         self.end_requested = False
+        self.slam_requested = False
         self.extra_pending = {}
         self.games += 1
         return ["game_starting"]
@@ -163,7 +165,10 @@ class Grammar:
 
     def on_ball_ended(self, kw):
         if self.extra_pending.get(self.turn_player, 0) > 0:
-            # one more ball per extra ball awarded; what happens to it after an end request is not judged
+            # one more ball per extra ball awarded; what happens to it after an end_game request is not judged, but a slam
+            # tilt ends the game at once: no further ball is served
+            if self.slam_requested:
+                return ["player_turn_will_end"]
             return ["ball_will_start", "player_turn_will_end"] if self.end_requested else ["ball_will_start"]
         return ["player_turn_will_end"]
 
@@ -182,7 +187,7 @@ class Grammar:
 
     def key(self):
         return (tuple(self.expect), self.players, self.turn_player, tuple(sorted(self.ball_no.items())),
-                self.end_requested, tuple(sorted(self.extra_pending.items())), tuple(self.turn_order[-3:]),
+                self.end_requested, self.slam_requested, tuple(sorted(self.extra_pending.items())), tuple(self.turn_order[-3:]),
                 getattr(self, "balls_this_turn", 0))
 
 
@@ -278,6 +283,8 @@ class GameDriver(MachineDriver):
             if g and not g.ending:
                 if k == "slam":
                     self.g.end_requested = True
+                    if not g.tilted:
+                        self.g.slam_requested = True
                 if not g.tilted:
                     # a (slam) tilt while the machine is already tilted is ignored by the tilt mode: not judged
                     self.reason = True
